@@ -372,12 +372,18 @@ Definition close_txn (st : state) (inj : list (nat * val)) (user_posts : list (n
                         EV (match o with Some v => [BCall (fst lh) v] | None => [] end))
                      (rev (listeners st));
   let cells := filter (fun kd => is_cell (snd kd)) (defs st) in
-  elet newvals <- emap (fun kd : nat * def =>
+  (* a cell whose value hangs on a loop that is not closed yet stays unresolved (reading it fails loudly) *)
+  elet newvals0 <- emap (fun kd : nat * def =>
                           elet u <- upd st inj Fu (fst kd);
                           match u with
-                          | Some v => EV (fst kd, v)
-                          | None => elet v <- cur st (F st) (fst kd); EV (fst kd, v)
+                          | Some v => EV [(fst kd, v)]
+                          | None => match cur st (F st) (fst kd) with
+                                    | EV v => EV [(fst kd, v)]
+                                    | EErr SampledBeforeLoop => EV []
+                                    | EErr e => EErr e
+                                    end
                           end) cells;
+  let newvals := concat newvals0 in
   elet lzs <- emap (fun zl : nat * (lz * nat) =>
                       match fst (snd zl) with
                       | LzVal v => EV zl
